@@ -155,6 +155,10 @@ def match_layout(got, layout, keys, lists, scale=1, name=sim.PROCNAME, check_typ
     return match_tuple(got, layout, expected_values(layout, keys, lists, 0, scale, name), check_type)
 
 
+def front_end_zombie(via, m, ans):
+    return via == "package" and m == "status" and ans.get("cls") == "ok" and ans.get("val") == "zombie" and ans.get("fired")
+
+
 def pidclass(row):
     if row["pid"] == 0:
         return "pid0-listed" if row["p0"] else "pid0-unlisted"
@@ -201,8 +205,6 @@ class Judge:
             return True
         if m in UNKNOWN_VALUES and got in UNKNOWN_VALUES[m]:
             return True
-        if m == "status" and row["z"] and got == "zombie":
-            return True        # psutil.Process.status() documents STATUS_ZOMBIE for a zombie
         if m in LIST_METHODS and base and base.get("cls") == "ok" and isinstance(got, dict) and "l" in got:
             return all(x in base["val"]["l"] for x in got["l"])
         return False
@@ -215,6 +217,10 @@ class Judge:
         cls = ans.get("cls")
         if cls == "RunnerError":
             raise core.Machinery("runner error on %s %r: %s" % (plat, row, ans.get("text")))
+        if front_end_zombie(via, m, ans):
+            # psutil.Process.status() documents: a ZombieProcess of the platform layer becomes STATUS_ZOMBIE
+            ans = dict(ans, cls="ZombieProcess", pid=row["pid"], name=ans.get("cached"))
+            cls = "ZombieProcess"
         if not ans.get("fired"):
             # the method makes fewer per-process native calls than row.site: nothing failed
             ctx.case(key, nontrivial=False)
@@ -608,6 +614,8 @@ def trace_validate(ctx, judge, plat_out, cfgs, n):
                 ctx.case(key, nontrivial=False)
                 continue
             ctx.case(key)
+            if front_end_zombie(via, row["m"], ans):
+                ans = dict(ans, cls="ZombieProcess", pid=row["pid"], name=ans.get("cached"))
             cls = ans["cls"]
             if cls == "ok":
                 lay = judge.layouts.get((p, row["m"]))
